@@ -66,25 +66,31 @@ fn scenario_json(s: &Scenario) -> Value {
     }
 }
 
+/// `data` with the run's root rewritten to a placeholder
+fn rewrite_root(root: &Path, data: &[u8]) -> Vec<u8> {
+    let needle = root.as_os_str().as_encoded_bytes();
+    if needle.is_empty() || !data.windows(needle.len()).any(|w| w == needle) {
+        return data.to_vec();
+    }
+    let mut out = vec![];
+    let mut i = 0;
+    while i < data.len() {
+        if data[i..].starts_with(needle) {
+            out.extend_from_slice(b"<ROOT>");
+            i += needle.len();
+        } else {
+            out.push(data[i]);
+            i += 1;
+        }
+    }
+    out
+}
+
 /// relative snapshot with the run's root rewritten to a placeholder in every file content and link target
 fn normalised(root: &Path, sub: &Path) -> Snapshot {
     let mut s = fsutil::snapshot(sub);
-    let needle = root.as_os_str().as_encoded_bytes().to_vec();
     for e in s.values_mut() {
-        if !needle.is_empty() && e.data.windows(needle.len()).any(|w| w == needle) {
-            let mut out = vec![];
-            let mut i = 0;
-            while i < e.data.len() {
-                if e.data[i..].starts_with(&needle) {
-                    out.extend_from_slice(b"<ROOT>");
-                    i += needle.len();
-                } else {
-                    out.push(e.data[i]);
-                    i += 1;
-                }
-            }
-            e.data = out;
-        }
+        e.data = rewrite_root(root, &e.data);
     }
     s
 }
@@ -108,26 +114,38 @@ fn check_pure(scratch: &Path, scn_json: &Value) -> (Check, Vec<&'static str>) {
     for tag in tags.iter().take(RUNS) {
         let root = scratch.join(format!("{tag}-{:08x}-{}", hash_of(&scn_json.to_string()) as u32, crate::core::uniq()));
         let _ = fsutil::force_remove(&root);
+        std::fs::create_dir_all(&root).unwrap();
+        let root = std::fs::canonicalize(&root).unwrap();
         let d = bprun::setup_dirs(&root);
+        // ambient state that is no input of the buildpack API differs between the runs: PWD absent / the physical spelling /
+        // a symbolic-link alias of the working directory / a stale value naming another directory
+        let alias = root.join("app-alias");
+        std::os::unix::fs::symlink(&d.app, &alias).unwrap();
+        let ambient: Vec<(OsString, OsString)> = match results.len() {
+            0 => vec![],
+            1 => vec![("PWD".into(), d.app.clone().into_os_string())],
+            2 => vec![("PWD".into(), alias.clone().into_os_string())],
+            _ => vec![("PWD".into(), root.clone().into_os_string())],
+        };
         std::fs::write(d.buildpack.join("buildpack.toml"), VALID_BUILDPACK_TOML).unwrap();
         std::fs::create_dir_all(d.platform.join("env")).unwrap();
         let env = bprun::full_env(&d);
         let mut steps = vec![];
         if let Some(p) = scn_json.get("detect") {
-            let script = json!({"detect": {"pass_plan": p}});
+            let script = json!({"detect": {"pass_plan": p}, "use_app_dir": true});
             let args: Vec<OsString> = vec![d.platform.clone().into(), d.plan.clone().into()];
-            let out = bprun::run(&BpRun { root: &root, exe_name: "detect", args, env: env.clone(), script: &script, extra_env: vec![] });
+            let out = bprun::run(&BpRun { root: &root, exe_name: "detect", args, env: env.clone(), script: &script, extra_env: ambient.clone() });
             let mut snap = Snapshot::new();
             if let Ok(b) = std::fs::read(&d.plan) {
-                snap.insert(b"plan.toml".to_vec(), fsutil::Entry { kind: fsutil::Kind::File, mode: 0, data: b });
+                snap.insert(b"plan.toml".to_vec(), fsutil::Entry { kind: fsutil::Kind::File, mode: 0, data: rewrite_root(&root, &b) });
             }
             steps.push((out.code.unwrap_or(-1), snap));
         } else {
             for b in scn_json["builds"].as_array().unwrap() {
                 std::fs::write(&d.plan, "").unwrap();
-                let script = json!({"build": b});
+                let script = json!({"build": b, "use_app_dir": true});
                 let args: Vec<OsString> = vec![d.layers.clone().into(), d.platform.clone().into(), d.plan.clone().into()];
-                let out = bprun::run(&BpRun { root: &root, exe_name: "build", args, env: env.clone(), script: &script, extra_env: vec![] });
+                let out = bprun::run(&BpRun { root: &root, exe_name: "build", args, env: env.clone(), script: &script, extra_env: ambient.clone() });
                 steps.push((out.code.unwrap_or(-1), normalised(&root, &d.layers)));
             }
         }
@@ -178,7 +196,7 @@ fn nontrivial(s: &Scenario) -> bool {
 }
 
 pub fn run(ctx: &Ctx) {
-    ctx.set_rule("scenarios from the C01 generator (layer-operation scripts executed inside build through cached_layer/uncached_layer and LayerRef writes), the C02 generator (scripted Layer implementations through handle_layer) and the C05/C07 generators (detect with generated build plans; build results with generated launch configuration, store tables, build/launch SBOMs), 1-2 consecutive builds over the same layers directory; each scenario executed in 4 fresh processes (independent hash seeds, different start times) under 4 different temp roots of different lengths. Oracle: the relative lstat snapshots (bytes, modes, link targets) of <layers> after every build, and the build-plan file, are pairwise identical after rewriting the temp root to a placeholder; exit codes agree. Non-trivial: some output is produced from a collection with >= 2 elements (env entries, exec.d programs, SBOM formats, launch operations, store keys, or any trait-API result); distinct = hash of the scenario.");
+    ctx.set_rule("scenarios from the C01 generator (layer-operation scripts executed inside build through cached_layer/uncached_layer and LayerRef writes), the C02 generator (scripted Layer implementations through handle_layer) and the C05/C07 generators (detect with generated build plans; build results with generated launch configuration, store tables, build/launch SBOMs), 1-2 consecutive builds over the same layers directory; each scenario executed in 4 fresh processes (independent hash seeds, different start times) under 4 different temp roots of different lengths and with different ambient state that is no input of the buildpack API (PWD absent / the physical working directory / a symbolic-link alias of it / a stale value); the scripted buildpack also writes one output derived from context.app_dir (metadata of a build-plan require in detect, a store.toml key in build). Oracle: the relative lstat snapshots (bytes, modes, link targets) of <layers> after every build, and the build-plan file, are pairwise identical after rewriting the temp root to a placeholder; exit codes agree. Non-trivial: some output is produced from a collection with >= 2 elements (env entries, exec.d programs, SBOM formats, launch operations, store keys, or any trait-API result); distinct = hash of the scenario.");
     ctx.assume("detection of an iteration-order leak is probabilistic: with 4 processes and >= 2 elements the miss probability per scenario is <= 1/8");
     let scratch = Scratch::new("c20");
     for (_p, v) in ctx.regress_files() {
